@@ -618,6 +618,26 @@ func checkSecurityTemplates(c *core.Ctx, r *core.Rule) {
 			}
 		}
 	}
+	// growth of the bitset preserves the bits already set: every store to *r is append(*r, …)
+	growOK, nStores := true, 0
+	recv := setFn.Params[0]
+	for _, b := range setFn.Blocks {
+		for _, in := range b.Instrs {
+			st, ok := in.(*ssa.Store)
+			if !ok || st.Addr != ssa.Value(recv) {
+				continue
+			}
+			nStores++
+			if !isAppendTo(st.Val, recv) {
+				growOK = false
+				r.Fail("bitset.Set:grow", c.Pos(st.Pos()), "Bitset.Set replaces the slice instead of appending to it: bits set earlier are lost when a scheme index crosses a byte boundary (9 or more schemes in one operation)")
+			}
+		}
+	}
+	if growOK {
+		r.Pass(fmt.Sprintf("bitset.Set grows the slice only by append (%d store sites): earlier bits are preserved", nStores))
+	}
+	checkRequirementSkip(c, r, prog)
 	ts, err := tmpl.Load(c.Repo)
 	if err != nil {
 		r.Undecided("load:templates", "-", err.Error())
@@ -769,6 +789,108 @@ func checkSecurityOverride(c *core.Ctx, r *core.Rule) {
 			r.Pass("parseOp: operation-level security, when present (!= nil), replaces the global requirements")
 		} else {
 			r.Fail("parseOp:override", c.Pos(call.Pos()), "operation-level security does not replace the global requirements on its != nil edge")
+		}
+	}
+}
+
+// checkRequirementSkip: in generateSecurities a scheme that cannot be
+// generated skips its whole requirement — the append of the requirement's
+// mask is not reachable from the failure edge of generateSecurity within the
+// same iteration over requirements.
+func checkRequirementSkip(c *core.Ctx, r *core.Rule, prog *core.Prog) {
+	gs := prog.Func(pkgGen, "Generator.generateSecurities")
+	if gs == nil {
+		r.Undecided("anchor:generateSecurities", "-", "gen.(*Generator).generateSecurities not found")
+		return
+	}
+	// the store that appends to r.Requirements (in gs itself)
+	var appendStore *ssa.Store
+	for _, b := range gs.Blocks {
+		for _, in := range b.Instrs {
+			if st, ok := in.(*ssa.Store); ok {
+				if fa, ok := st.Addr.(*ssa.FieldAddr); ok && fieldName(fa.X.Type(), fa.Field) == "Requirements" {
+					appendStore = st
+				}
+			}
+		}
+	}
+	if appendStore == nil {
+		r.Undecided("generateSecurities:append", c.Pos(gs.Pos()), "no append to Requirements found")
+		return
+	}
+	// the generateSecurity call: in gs or in one of its closures
+	for _, f := range core.AllFuncs(gs) {
+		for _, call := range core.Calls(f) {
+			cl, ok := call.(*ssa.Call)
+			if !ok || cl.Common().StaticCallee() == nil || cl.Common().StaticCallee().Name() != "generateSecurity" {
+				continue
+			}
+			if f != gs {
+				// closure form: the closure's error decides; the append must be dominated by the success edge
+				// of the closure call in gs
+				ok := false
+				for _, pc := range core.Calls(gs) {
+					pcl, isCall := pc.(*ssa.Call)
+					if !isCall {
+						continue
+					}
+					if mc, isMC := pcl.Common().Value.(*ssa.MakeClosure); isMC && mc.Fn == f {
+						if core.DominatedBySuccess(pcl, appendStore.Block()) {
+							ok = true
+						}
+					}
+				}
+				// and inside the closure a failed scheme returns a non-nil error
+				retErr := false
+				for _, ev := range core.ErrValueOf(cl) {
+					for _, fb := range failureBlocks(ev) {
+						for _, b := range f.Blocks {
+							if ret, isRet := b.Instrs[len(b.Instrs)-1].(*ssa.Return); isRet && fb.Dominates(b) && !core.IsNilConst(ret.Results[len(ret.Results)-1]) {
+								retErr = true
+							}
+						}
+					}
+				}
+				if ok && retErr {
+					r.Pass("generateSecurities: a scheme that cannot be generated fails its requirement's closure, and the mask is appended only on that closure's success edge")
+				} else {
+					r.Fail("generateSecurities:skip", c.Pos(cl.Pos()), "a scheme that cannot be generated does not skip its whole requirement: the requirement is weakened to the remaining schemes (or to the anonymous requirement)")
+				}
+				continue
+			}
+			// flattened form: from the failure edge the append must not be reachable without passing the
+			// header of the loop over requirements
+			var header *ssa.BasicBlock
+			for _, b := range gs.Blocks {
+				// the outermost loop header enclosing both: the loop over requirements
+				if header == nil && b.Dominates(cl.Block()) && b.Dominates(appendStore.Block()) && reaches(appendStore.Block(), b) && b != gs.Blocks[0] && len(b.Preds) >= 2 {
+					header = b
+				}
+			}
+			bad := false
+			for _, ev := range core.ErrValueOf(cl) {
+				for _, fb := range failureBlocks(ev) {
+					seen := map[*ssa.BasicBlock]bool{}
+					stack := []*ssa.BasicBlock{fb}
+					for len(stack) > 0 {
+						b := stack[len(stack)-1]
+						stack = stack[:len(stack)-1]
+						if seen[b] || b == header {
+							continue
+						}
+						seen[b] = true
+						if b == appendStore.Block() {
+							bad = true
+						}
+						stack = append(stack, b.Succs...)
+					}
+				}
+			}
+			if bad || header == nil {
+				r.Fail("generateSecurities:skip", c.Pos(cl.Pos()), "after a scheme failed to generate, the requirement's mask is still appended in the same iteration: the requirement is weakened to the remaining schemes (or to the anonymous requirement)")
+			} else {
+				r.Pass("generateSecurities: the failure edge of generateSecurity cannot reach the append of the requirement's mask within the same requirement")
+			}
 		}
 	}
 }
